@@ -710,8 +710,9 @@ Notes:
             self._direc = direc
             self.population[0] = x   # bestSolution
             self.popEnergy[0] = fval # bestEnergy
-            self.energy_history = None # resync with 'best' energy
-            self._stepmon(x, fval, self.id) # get ith values
+            if self._energy_history is not None: # (else logged by Finalize)
+                self.energy_history = None # resync with 'best' energy
+                self._stepmon(x, fval, self.id) # get ith values
 
             fx = fval
             bigind = 0
@@ -747,7 +748,7 @@ Notes:
 
     def Finalize(self):
         """cleanup upon exiting the main optimization loop"""
-        if self.energy_history != None and self._live:
+        if self._energy_history is not None and self._live:
             self.energy_history = None # resync with 'best' energy
             self._stepmon(self.bestSolution, self.bestEnergy, self.id)
             # if savefrequency matches, then save state
